@@ -22,9 +22,10 @@ PROPERTY_ID = "C07"
 LEVEL = "exploration"
 RULE = (
     "valid generated histories over 2-4 exchanges and 1-2 holders (joint filing), self transfers, transfers into "
-    "never-funded accounts, x {no to-date, to-dates} x methods; plus overdrawn mutants run with -n. Reported acquired / "
+    "never-funded accounts, x {no to-date, to-dates} x {-n off, -n on: for a valid history it changes nothing} x from-dates (never change balances) x methods; plus overdrawn mutants run with -n, with and without a to-date. Reported acquired / "
     "sent / received / final vs exact sums over the input rows, and sum of finals vs lots minus consumption in the observed "
-    "trace. Non-trivial = >= 3 accounts touched and >= 1 transfer; distinct = hash of (history, to-date, -n)"
+    "trace. Non-trivial = >= 3 accounts touched and >= 1 transfer; distinct = hash of (history, to-date, -n). "
+    "The repository's own example inputs (input/*.ods read independently of RP2's parser, every method and the config's schedule, -n) are part of the workload"
 )
 ASSUMPTIONS = [
     "sent = outgoing amount + crypto fee (exchange-supplied crypto_out_with_fee, when given, equals their sum in this workload)",
